@@ -43,6 +43,7 @@ func verifyFunc(prog *Prog, specs *Specs, fn *ssa.Function, fc *FuncContract, op
 	fr.contract = fc
 	un.curFrame = fr
 	un.addAxioms(fr)
+	un.addFact("(>= " + un.get(st, un.comp("G_heldlocks", "Int", "ghost")) + " 0)")
 	// parameters and free variables are symbolic
 	for _, p := range fn.Params {
 		c := un.u.freshConst(fn.Name()+"."+p.Name(), un.u.sortOf(p.Type()))
@@ -179,9 +180,15 @@ func (un *Unit) smtFor(o *Obl, produceModels bool) string { return un.smtForOpt(
 // yields a model instead of `unknown`. Dropping hypotheses only weakens them: `unsat` is still a proof, `sat` only a candidate.
 var famRe = regexp.MustCompile(`\|([^|@]+)@[^|]*\|`)
 
+var fnRe = regexp.MustCompile(`\((sf_[A-Za-z0-9_]+|g_at_[A-Za-z0-9_.]+|g_perm![0-9]+|g_pinv![0-9]+)[ )]`)
+
+// families: the heap components (by name, ignoring versions) and the spec / model function symbols a term mentions.
 func families(t string) map[string]bool {
 	out := map[string]bool{}
 	for _, m := range famRe.FindAllStringSubmatch(t, -1) {
+		out[m[1]] = true
+	}
+	for _, m := range fnRe.FindAllStringSubmatch(t, -1) {
 		out[m[1]] = true
 	}
 	return out
@@ -204,7 +211,7 @@ func (un *Unit) smtPruned(o *Obl) (string, bool) {
 		}
 		if strings.Contains(f.T, "(forall ") || strings.Contains(f.T, "(exists ") {
 			fam := families(f.T)
-			keep := len(fam) == 0
+			keep := false
 			for k := range fam {
 				if goalFam[k] {
 					keep = true
@@ -275,7 +282,7 @@ func (un *Unit) resolveModifies(fr *Frame) []modEntry {
 			continue
 		}
 		text := strings.TrimSpace(cl.Text)
-		if text == "clock" {
+		if text == "clock" || mentionsResult(text) {
 			continue
 		}
 		if g, ok := un.specs.Ghosts[text]; ok {
@@ -362,7 +369,7 @@ func (un *Unit) frameFormula(c, cur string) string {
 		un.mods = un.resolveModifies(top)
 	}
 	kind := un.compKind[c]
-	if kind == "local" || kind == "next" || kind == "iter" || kind == "box" || c == "G_clock" || un.isVolatile(c) {
+	if kind == "local" || kind == "next" || kind == "iter" || kind == "box" || c == "G_clock" || c == "G_heldlocks" || un.isVolatile(c) {
 		return ""
 	}
 	old := un.get(un.entry, c)
@@ -399,6 +406,10 @@ func (un *Unit) frameFormula(c, cur string) string {
 		var ex []string
 		for _, m := range listed {
 			ex = append(ex, eq(q, m.key))
+		}
+		if ks == "Int" {
+			// ghost state of objects that did not exist at entry is not part of the caller's frame
+			ex = append(ex, "(>= "+q+" "+next0+")")
 		}
 		return fmt.Sprintf("(forall ((%s %s)) %s)", q, ks, or(or(ex...), eq(sel(cur, q), sel(old, q))))
 	case kind == "elem":
